@@ -10,13 +10,19 @@ from sa.astx import NotConst, call_attr, call_name, const_eval, module_consts, s
 from sa.domains import escaper_problems, replace_chain
 from sa.selftest import Mutant, Silent
 from sa.source import AnalysisError
-from sa.props._lib_f import GenThunk, InterpError, MDeferred, ModelRaised, World, call_sites, interpret, module_patterns, named_calls, param_names
+from sa.props._lib_f import Abstain, norm_function, structural, GenThunk, InterpError, MDeferred, ModelRaised, World, call_sites, interpret, module_patterns, named_calls, param_names
 
 PROPERTY = "C28"
 FL = "web/_flatten.py"
 Q = "twisted.web._flatten."
-TECHNIQUE = "provenance at write sinks + finite-domain evaluation of escapers against tokenizer oracles"
+TECHNIQUE = "data-flow provenance at every write() sink; escapers over all 256 bytes; bounded tree round-trips and tokenizer oracles"
 EXPLANATION = (
+    "STRUCTURAL (for every path of the normalised _flattenElement): each write() argument is, by data flow, markup literal / tag or attribute name / output of the escaper of its "
+    "context (dataEscaper(root) in the text branch, escapedCDATA / escapedComment of root.data in theirs) / the numeric character reference - raw root, root.data or attribute "
+    "values never reach write(); attribute values recurse only through writeWithAttributeEscaping(write) + attributeEscapingDoneOutside, children reset to escapeForContent, "
+    "no other step overrides the escaper, keepGoing forwards its context; buffered writes are delivered in order.  FINITE-EXHAUSTIVE: content and attribute escapers on all "
+    "256 bytes and their neighbourhoods (single-byte replacement chain checked).  BOUNDED second layer (bounded evidence only for: comment/CDATA escapers - string grids against "
+    "tokenizer oracles, F28 known; parse-back of whole trees): "
     "Decides: (a) provenance at every write(...) of _flattenElement: the argument is a markup literal from the frozen set, dataEscaper(root), "
     "escapedCDATA(root.data) / escapedComment(root.data) bracketed in order by their delimiters, the tag/attribute name (valid by the statement) or the "
     "numeric character reference; attribute values are flattened only through write=writeWithAttributeEscaping(write) with attributeEscapingDoneOutside, "
@@ -28,6 +34,11 @@ EXPLANATION = (
     "starting with '>' or '->', containing '--!>' end the comment early; '--' is not well-formed XML). Not decided: structural equality after re-parsing "
     "whole documents, renderers' own output."
 )
+RULE_KINDS = {
+    "sink/": "structural", "attribute/": "structural", "children/": "structural", "recursion/": "structural",
+    "escaper/all-bytes": "finite-exhaustive", "escaper/rewrite-order": "structural", "escaper/metacharacters": "structural", "escaper/attribute-chain": "structural",
+    "flatten/": "bounded", "escaper/": "bounded",
+}
 ASSUMPTIONS = ["tag and attribute names are valid names (given by the property statement)", "str methods replace/encode behave as in CPython (the evaluator calls them on constants)"]
 
 MARKUP_LITERALS = {b"<![CDATA[", b"]]>", b"<!--", b"-->", b"<", b">", b'"', b" />"}
@@ -44,6 +55,13 @@ def check(ctx):
     MODULE_ENV.clear()
     MODULE_ENV.update(module_consts(ctx.mod(FL)))
     MODULE_ENV.update(module_patterns(ctx.mod(FL)))
+    with ctx.section("s-sinks"):
+        structural(ctx, "sink/provenance", "flatten/parses-back (bounded)", _s_sinks, ctx)
+    with ctx.section("fe-escapers"):
+        try:
+            structural(ctx, "escaper/all-bytes", "escaper/content-roundtrip + escaper/attribute-roundtrip (bounded)", _fe_escapers, ctx)
+        except InterpError as e:
+            raise AnalysisError(f"C28/fe-escapers: {e}")
     with ctx.section("flatten"):
         try:
             _flatten_roundtrip(ctx)
@@ -285,6 +303,166 @@ def _flatten_roundtrip(ctx):
     starts = [c for c in walk_local(ft) if isinstance(c, ast.Call) and call_name(c) == "_flattenElement"]
     ok = len(starts) == 1 and any(src(a) == "escapeForContent" for a in list(starts[0].args) + [k.value for k in starts[0].keywords])
     ctx.check(ok, "recursion/top-level-escaper", Q + "_flattenTree", "flattening does not start in the content-escaping context")
+
+
+# ==================================================================================================================================
+# STRUCTURAL layer: provenance of everything that reaches write() in _flattenElement, by data flow (not by local names)
+# ==================================================================================================================================
+MARKUP = {b"<![CDATA[", b"]]>", b"<!--", b"-->", b"<", b">", b'"', b" />", b" ", b'="', b"</"}
+
+
+def _sources(expr, f, loopkeys, loopvals, depth=0):
+    """set of provenance classes of the bytes an expression can evaluate to: 'markup' (literal), 'name' (tag / attribute name: valid by the statement), 'escaped:<escaper>',
+    'charref', 'RAW:<what>' (content that passed no escaper), '?' (not understood)"""
+    if depth > 6:
+        return {"?"}
+    c = _const(expr)
+    if isinstance(c, bytes):
+        return {"markup"} if c in MARKUP else {"RAW:literal " + repr(c)}
+    if isinstance(expr, ast.IfExp):
+        return _sources(expr.body, f, loopkeys, loopvals, depth + 1) | _sources(expr.orelse, f, loopkeys, loopvals, depth + 1)
+    if isinstance(expr, ast.BinOp) and isinstance(expr.op, ast.Add):
+        return _sources(expr.left, f, loopkeys, loopvals, depth + 1) | _sources(expr.right, f, loopkeys, loopvals, depth + 1)
+    if isinstance(expr, ast.Attribute) and src(expr) == "root.tagName":
+        return {"name"}
+    if isinstance(expr, ast.Call):
+        cn = call_name(expr) or ""
+        if isinstance(expr.func, ast.Attribute) and expr.func.attr == "encode":
+            inner = expr.func.value
+            if isinstance(inner, ast.BinOp) and isinstance(inner.op, ast.Mod) and _const(inner.left) == "&#%d;":
+                return {"charref"}
+            return _sources(inner, f, loopkeys, loopvals, depth + 1)
+        if cn == "dataEscaper" and [src(a_) for a_ in expr.args] == ["root"]:
+            return {"escaped:dataEscaper"}
+        if cn in ("escapedCDATA", "escapedComment") and [src(a_) for a_ in expr.args] == ["root.data"]:
+            return {"escaped:" + cn}
+        if cn in ("escapeForContent", "escapedCDATA", "escapedComment", "dataEscaper"):
+            return {"escaped:" + cn + "(other)"}
+        return {"?"}
+    if isinstance(expr, ast.BinOp) and isinstance(expr.op, ast.Mod) and _const(expr.left) in ("&#%d;", b"&#%d;"):
+        return {"charref"}
+    if isinstance(expr, ast.Name):
+        if expr.id in loopkeys:
+            return {"name"}
+        if expr.id in loopvals:
+            return {"RAW:attribute value"}
+        if expr.id == "root":
+            return {"RAW:root"}
+        defs = [s_.value for s_ in walk_local(f) if isinstance(s_, ast.Assign) and any(isinstance(t, ast.Name) and t.id == expr.id for t in s_.targets)]
+        if not defs:
+            return {"?"}
+        out = set()
+        for d in defs:
+            out |= _sources(d, f, loopkeys, loopvals, depth + 1)
+        return out
+    if isinstance(expr, ast.Attribute) and src(expr) in ("root.data", "root.children", "root.attributes"):
+        return {"RAW:" + src(expr)}
+    return {"?"}
+
+
+def _s_sinks(ctx):
+    f = norm_function(ctx, FL, "_flattenElement")
+    g = ctx.cfg(f)
+    q = Q + "_flattenElement"
+    loops = [s_ for s_ in walk_local(f) if isinstance(s_, ast.For) and "root.attributes" in src(s_.iter) and isinstance(s_.target, ast.Tuple) and len(s_.target.elts) == 2]
+    if len(loops) != 1:
+        raise Abstain(f"{len(loops)} loops over root.attributes")
+    kname, vname = [src(e) for e in loops[0].target.elts]
+    writes = call_sites(g, lambda c: isinstance(c.func, ast.Name) and c.func.id == "write")
+    if len(writes) < 10:
+        raise Abstain(f"only {len(writes)} write() sites in the normalised _flattenElement")
+    n_raw = 0
+    unknown = []
+    for n, c in writes:
+        if len(c.args) != 1:
+            unknown.append(src(c))
+            continue
+        srcs = _sources(c.args[0], f, {kname}, {vname})
+        raw = sorted(x for x in srcs if x.startswith("RAW:"))
+        if raw:
+            n_raw += 1
+            ctx.violation("sink/provenance", q + f" | write({src(c.args[0])[:50]})", f"content reaches the output without passing the escaper of its context: {raw} - a string could open or close markup")
+        elif "?" in srcs:
+            unknown.append(src(c)[:60])
+        else:
+            ctx.ok("sink/provenance", q + f" | write(<{'+'.join(sorted(srcs))}>)")
+        # context of the escaped kinds
+        guards = [src(g.node(t).ast) for t, lab in g.edge_guards(n) if lab == "T"]
+        for kind, want in (("escaped:dataEscaper", ("isinstance(root, (bytes, str))", "isinstance(root, (str, bytes))")), ("escaped:escapedCDATA", ("isinstance(root, CDATA)",)),
+                           ("escaped:escapedComment", ("isinstance(root, Comment)",))):
+            if kind in srcs:
+                ctx.check(any(w_ in guards for w_ in want), "sink/context", q + f" | {kind}", f"the {kind.split(':')[1]} output is not confined to the `{want[0]}` branch (guards: {guards})")
+    if unknown:
+        ctx.note(f"sink/provenance: {len(unknown)} write() argument(s) not understood ({unknown[:2]}); left to flatten/parses-back (bounded)")
+    # attribute values / children: the recursive steps
+    kg = call_sites(g, lambda c: isinstance(c.func, ast.Name) and c.func.id == "keepGoing")
+    if not kg:
+        raise Abstain("no keepGoing() recursion sites")
+    attr = [(n, c) for n, c in kg if c.args and src(c.args[0]) == vname]
+    ctx.check(len(attr) == 1, "attribute/escaped-outside", q + " | attribute value", f"attribute values are flattened at {len(attr)} sites (one expected)")
+    for n, c in attr:
+        kw = {k.arg: k.value for k in c.keywords}
+        esc = c.args[1] if len(c.args) > 1 else kw.get("dataEscaper")
+        w_ = c.args[3] if len(c.args) > 3 else kw.get("write")
+        ok = isinstance(w_, ast.Call) and call_name(w_) == "writeWithAttributeEscaping" and [src(x) for x in w_.args] == ["write"]
+        ctx.check(ok, "attribute/escaped-outside", q + " | attribute value | writer",
+                  "an attribute value is flattened with a writer that does not escape for attributes: a double quote or '<' in the value (or in nested tags) ends the attribute")
+        ctx.check(esc is not None and src(esc) == "attributeEscapingDoneOutside", "attribute/escaped-outside", q + " | attribute value | inner escaper",
+                  "the inner escaper of an attribute value is not attributeEscapingDoneOutside")
+    for n, c in kg:
+        if (n, c) in attr:
+            continue
+        kw = {k.arg: k.value for k in c.keywords}
+        esc = c.args[1] if len(c.args) > 1 else kw.get("dataEscaper")
+        if c.args and src(c.args[0]) == "root.children" and any(src(g.node(t).ast) == "root.tagName" and lab == "T" for t, lab in g.edge_guards(n)):
+            ctx.check(esc is not None and src(esc) == "escapeForContent" and "write" not in kw and len(c.args) <= 2, "children/content-escaper", q + " | children of a named tag",
+                      "children of a tag do not switch back to escapeForContent (text inside a tag inside an attribute would lose one level of quoting)")
+        else:
+            ok = esc is None and "write" not in kw and len(c.args) == 1
+            ctx.check(ok, "recursion/no-escaper-override", q + f" | keepGoing({src(c.args[0])[:30] if c.args else ''})", "a recursive flattening step overrides the escaper / writer of its context")
+    kgf = ctx.func(FL, "_flattenElement.keepGoing")
+    outer = [a_.arg for a_ in f.args.args]
+    rets = [s_ for s_ in walk_local(kgf) if isinstance(s_, ast.Return)]
+    ok = len(rets) == 1 and isinstance(rets[0].value, ast.Call) and call_name(rets[0].value) == "_flattenElement" and \
+        [src(a_) for a_ in rets[0].value.args] == [outer[0], kgf.args.args[0].arg] + outer[2:]
+    ctx.check(ok, "recursion/forwarding", Q + "_flattenElement.keepGoing", "keepGoing does not forward (request, newRoot, write, slotData, renderFactory, dataEscaper) in the parameter order of _flattenElement")
+    defaults = {a_.arg: src(d) for a_, d in zip(kgf.args.args[-len(kgf.args.defaults):], kgf.args.defaults)} if kgf.args.defaults else {}
+    ctx.check(all(defaults.get(k) == k for k in ("dataEscaper", "renderFactory", "write")), "recursion/forwarding", Q + "_flattenElement.keepGoing | defaults",
+              "keepGoing's escaper / writer do not default to those of the enclosing context")
+
+
+def _fe_escapers(ctx):
+    """finite-exhaustive: an escaper that is a chain of single-byte replacements maps every byte independently; checking all 256 bytes (alone and next to each rewritten
+    metacharacter, for the ordering of the rewrites) is exhaustive"""
+    efc = ctx.func(FL, "escapeForContent")
+    try:
+        pairs = replace_chain(efc)
+    except AnalysisError:
+        pairs = []
+    if not pairs or not all(isinstance(o, bytes) and len(o) == 1 for o, n in pairs):
+        raise Abstain("escapeForContent is not a chain of single-byte .replace() calls")
+    w = ctx.func(FL, "writeWithAttributeEscaping._write")
+    bad_c, bad_a = [], []
+    metas = [o for o, n in pairs] + [b'"']
+    cases = [bytes([b]) for b in range(256)] + [m + bytes([b]) for m in metas for b in b'&<>";#a'] + [bytes([b]) + m for m in metas for b in b'&<>";#a']
+    for data in cases:
+        out = _run(efc, data)
+        try:
+            text = data.decode("latin-1")
+            ok = isinstance(out, bytes) and b"<" not in out and b">" not in out and html.unescape(out.decode("latin-1")) == text
+        except Exception:
+            ok = False
+        if not ok:
+            bad_c.append((data, out))
+        captured = []
+        funcs = {"isinstance": isinstance, "write": lambda d: captured.append(d), "escapeForContent": lambda d: _run(efc, d)}
+        kind, val = interpret(w, dict(MODULE_ENV, **{param_names(w)[0]: data, "str": str, "bytes": bytes}), funcs=funcs)
+        o2 = b"".join(captured) if kind == "return" and all(isinstance(c_, bytes) for c_ in captured) else None
+        if o2 is None or (set(o2) & set(b'<>"')) or html.unescape(o2.decode("latin-1")) != data.decode("latin-1"):
+            bad_a.append((data, o2))
+    dom = "domain: single-byte replacement chain (checked): all 256 bytes, alone and adjacent to every rewritten metacharacter"
+    ctx.check(not bad_c, "escaper/all-bytes", Q + "escapeForContent", f"escapeForContent({bad_c[0][0]!r}) = {bad_c[0][1]!r}: raw markup survives or the text does not un-escape to itself" if bad_c else "", detail=dom)
+    ctx.check(not bad_a, "escaper/all-bytes", Q + "writeWithAttributeEscaping._write", f"attribute text {bad_a[0][0]!r} is written as {bad_a[0][1]!r}" if bad_a else "", detail=dom)
 
 
 def _buffer(ctx):
